@@ -106,6 +106,14 @@ var xtypes = []xtype{
 			return fmt.Sprintf("printf(\"(%%lld,%%u,%%.3f)\", (long long)%s->a, (unsigned)%s->b, %s->k);", v, v, v)
 		},
 		scribble: func(v string) string { return fmt.Sprintf("%s->a = 111; %s->b = 1; %s->k = -9.0;", v, v, v) }},
+	// a Variable is passed by pointer to {vtable, small value buffer / pointer}; the C side only reads it
+	// (it has no access to the vtables it would need to store a value of another type). Never a return type.
+	{name: "Variable", ref: "Variablen Referenz", art: "Die", ret: "eine Variable", cstruct: "ddpany", vals: []string{"5", "\"txt\"", "(-9223372036854775807)"}, shown: []string{"<5>", "<[txt]>", "<-9223372036854775807>"},
+		fresh: ";", freshS: "", retC: "", retS: "",
+		cprint: func(v string) string {
+			return fmt.Sprintf("if (%s->vtable_ptr->type_size == sizeof(ddpint)) printf(\"<%%lld>\", (long long)*(ddpint *)(DDP_ANY_VALUE_PTR(%s))); else printf(\"<[%%s]>\", ((ddpstring *)(DDP_ANY_VALUE_PTR(%s)))->str);", v, v, v)
+		},
+		scribble: func(v string) string { return ";" }},
 }
 
 // the rendering of a Referenz argument of list type after the call depends on its value before
@@ -115,6 +123,8 @@ func afterRef(t xtype, vi int) string {
 		return []string{"{}", "{4242,2,3}", "{4242}"}[vi]
 	case "Text Liste":
 		return []string{"{}", "{[C],[],[äß]}"}[vi]
+	case "Variable":
+		return t.shown[vi]
 	}
 	return t.freshS
 }
@@ -212,6 +222,14 @@ Die Funktion zeige_p mit dem Parameter v vom Typ Punkt, gibt nichts zurück, mac
 Und kann so benutzt werden:
 	"zeige <v>"
 
+Die Funktion zeige_v mit dem Parameter v vom Typ Variable, gibt nichts zurück, macht:
+	Schreibe "<".
+	Wenn v eine Zahl ist, Schreibe (v als Zahl).
+	Sonst zeige (v als Text).
+	Schreibe ">".
+Und kann so benutzt werden:
+	"zeige <v>"
+
 Die Funktion zeige_f mit dem Parameter v vom Typ Flach, gibt nichts zurück, macht:
 	Schreibe "(".
 	Schreibe (a von v).
@@ -249,7 +267,7 @@ func generate(t *rapid.T) Case {
 			ti := rapid.IntRange(0, len(xtypes)-1).Draw(t, "ptype")
 			s.params = append(s.params, param{t: ti, ref: rapid.IntRange(0, 2).Draw(t, "ref") == 0, vi: rapid.IntRange(0, len(xtypes[ti].vals)-1).Draw(t, "val")})
 		}
-		s.ret = rapid.IntRange(-1, len(xtypes)-1).Draw(t, "ret")
+		s.ret = rapid.IntRange(-1, len(xtypes)-2).Draw(t, "ret") // not the Variable
 		// a DDP wrapper with a by-value parameter that it forwards as Referenz (needs a non-primitive Referenz parameter)
 		for _, p := range s.params {
 			if p.ref && !xtypes[p.t].prim && rapid.Bool().Draw(t, "wrapper") {
@@ -534,10 +552,10 @@ func TestMain(m *testing.M) {
 	vf.Main(m, vf.Def{
 		ID:    "C18",
 		Level: "exploration",
-		Rule: "generated projects of 1-4 extern functions with arity 0..6 over {Zahl, Kommazahl, Byte, Wahrheitswert, Buchstabe, Text, Zahlen Liste, Text Liste, a Kombination with a Text field, a Kombination of primitives only}, each parameter by value or Referenz, every return type incl. nothing; the generated C file (published headers only) prints every argument through the published structs, scribbles on by-value arguments, overwrites Referenz arguments with fresh values and returns a constructed value; the DDP side calls with boundary values (64-bit extremes, 0/255, 1-4 byte characters, empty and non-empty texts and lists) from globals or from locals of a function, from the declaring or an importing module, directly and through a DDP wrapper that forwards its own by-value parameters (as Referenz where the extern function wants one); " +
+		Rule: "generated projects of 1-4 extern functions with arity 0..6 over {Zahl, Kommazahl, Byte, Wahrheitswert, Buchstabe, Text, Zahlen Liste, Text Liste, a Kombination with a Text field, a Kombination of primitives only, Variable (holding a Zahl or a Text; read only)}, each parameter by value or Referenz, every return type incl. nothing; the generated C file (published headers only) prints every argument through the published structs, scribbles on by-value arguments, overwrites Referenz arguments with fresh values and returns a constructed value; the DDP side calls with boundary values (64-bit extremes, 0/255, 1-4 byte characters, empty and non-empty texts and lists) from globals or from locals of a function, from the declaring or an importing module, directly and through a DDP wrapper that forwards its own by-value parameters (as Referenz where the extern function wants one); " +
 			"oracle: model of the transcript (C sees exactly the values; by-value variables of the caller are unchanged; Referenz variables show exactly the fresh values; the result is the constructed value) + allocation ledger on ddp_reallocate and AddressSanitizer/LeakSanitizer over runtime, stdlib and the C file (caller releases by-value arguments once, owns the result, nothing leaks); object built by the real kddp at a drawn -O level and linked by gcc; " +
 			"non-trivial = signature with a non-primitive or Referenz parameter or a non-primitive result; distinct by file set",
-		Assumptions: []string{"Variable parameters are not generated", "the C callee may write into by-value arguments it received (they are copies the caller releases) as long as it keeps them releasable"},
+		Assumptions: []string{"Variable parameters are read by the C callee (holding a Zahl or a Text) but never written or returned", "the C callee may write into by-value arguments it received (they are copies the caller releases) as long as it keeps them releasable"},
 		Judge: func(raw json.RawMessage) *vf.Failure {
 			var c Case
 			if err := json.Unmarshal(raw, &c); err != nil {
